@@ -13,9 +13,16 @@ test helper ``apply_filters``) and judged by a declarative oracle (sub-sequence,
 last match kept, drops only after a budget is used up).  Plus: without filters every factory
 refuses to collect a filterable spec on a host.
 
+The truncated read of "extra-huge" files (TextFileProvider.load reads only the last MAX_CONTENT_SIZE bytes and discards
+the first, broken, line) is reached by CONFIGURING the public module constant ``spec_factory.MAX_CONTENT_SIZE`` to a few
+bytes for one group of cases (restored afterwards).  That is configuration of a documented constant - the repository's own
+test does the same -, not a patch of the code under test; the content clauses are then judged against the lines that survive
+the documented truncation.
+
 ``insights.tests`` is never imported (it monkey-patches filters.add_filter).
 """
 import collections
+import contextlib
 import itertools
 import os
 import shutil
@@ -49,7 +56,8 @@ RULE = ("A: explicit-state BFS to closure over (FILTERS,_CACHE) of a fixed graph
         "registration orders x registration places for overlapping pairs, triples in all 6 orders with mixed budgets, one "
         "string registered twice with different budgets, a superstring filter, set-typed arguments under every iteration order "
         "(forced hashes); stream() before and after load; two writes and two collections per host case; glob_file / "
-        "foreach_collect / foreach_execute content per file; shell/grep/format glue characters; filtering switched off; non-trivial when the real output kept at "
+        "foreach_collect / foreach_execute content per file; shell/grep/format glue characters; filtering switched off; the truncated read of extra-huge files (MAX_CONTENT_SIZE "
+        "configured to every value from 0 to size+1 bytes for contents of <= 3 lines over {a,b,\u00e9a,c\u00e9,-a,c,''}); non-trivial when the real output kept at "
         "least one line and dropped at least one line")
 ASSUMPTIONS = [
     "the module-level dicts / lists / sets of insights/core/filters.py (found by type, not by name) are the only state "
@@ -69,10 +77,13 @@ FILTER_STRINGS = ["a", "b", "-a", ".*", "[a]"]
 DEFAULT_BUDGET = 10000      # filters.MAX_MATCH; re-checked against the module when the fixture is built
 BOUNDS = {
     "quick": {"history": "closure for patterns {a,b} x budgets {1,default} and for pattern {a} x budgets {1,2,default}",
+              "content_note": "the 6 unbudgeted pairs of non-overlapping filters are judged on <= 3 lines only",
               "history_nested": "closure for patterns {a,b} x budgets {1,2,default} on the first_of graph",
               "history_shapes": "6 generated shapes, closure for {a} x {1,default}",
               "history_extras": "typed / refused arguments and dumps-loads round trip in every state of the {a} x {default} "
                                 "closures of main, multi, nested",
+              "truncated_read": "every byte limit 0..size+1 x contents <= 3 lines x 5 filter sets (archive), limits size-1/size+1 x "
+                                "<= 2 lines x 2 sets (host)",
               "extra_filter_descriptors": 140, "extra_descriptor_max_lines": 3, "multi_file_host_max_lines": 2,
               "history_multi": "two-points-under-one-parser graph: closure for {a,b} x {default} (adds on SA,SB,PAB,CAB,IA) "
                                "and for {a,b} x {1,default} (adds on SA,SB,PAB,CAB)",
@@ -83,6 +94,8 @@ BOUNDS = {
                  "history_shapes": "6 generated shapes, closures for {a} x {1,2,default} and {a,b} x {default}",
                  "history_extras": "typed / refused arguments and dumps-loads round trip in every state of the {a} x "
                                    "{default} closures of main, multi, nested",
+                 "truncated_read": "every byte limit 0..size+1 x contents <= 3 lines x 5 filter sets (archive), limits size-1/size+1 "
+                                   "x <= 3 lines x 2 sets (host)",
                  "extra_filter_descriptors": 234, "extra_descriptor_max_lines": 3, "multi_file_host_max_lines": 3,
                  "history_multi": "two-points-under-one-parser graph: closure for {a,b} x {1,2,default} (adds on "
                                   "SA,SB,PAB,CAB,IA)",
@@ -1356,8 +1369,43 @@ def _register(fx, triple, flts):
 
 
 def _write_input(fx, name, lines):
-    with open(os.path.join(fx.root, name), "w") as fh:
+    with open(os.path.join(fx.root, name), "w", encoding="utf-8") as fh:
         fh.write("".join(l + "\n" for l in lines))
+
+
+_LIMIT = [None]     # MAX_CONTENT_SIZE configured for the running case (None: the module's own 200 MB)
+
+
+@contextlib.contextmanager
+def _content_limit(m):
+    """Configures the documented module constant for one case and restores it."""
+    from insights.core import spec_factory
+    old = spec_factory.MAX_CONTENT_SIZE
+    if m is not None:
+        spec_factory.MAX_CONTENT_SIZE = m
+    _LIMIT[0] = m
+    try:
+        yield
+    finally:
+        spec_factory.MAX_CONTENT_SIZE = old
+        _LIMIT[0] = None
+
+
+def _surviving(lines):
+    """The lines a non-grep read of the file serves under the configured limit, as documented in load(): a file LARGER
+    than the limit is read from byte (size - limit) on and the first line read - "which is broken" - is discarded
+    (also when the cut happens to fall on a line boundary); a file of at most `limit` bytes is read whole."""
+    m = _LIMIT[0]
+    if m is None:
+        return lines
+    data = "".join(l + "\n" for l in lines).encode("utf-8")
+    if len(data) <= m:
+        return lines
+    text = data[len(data) - m:].decode("utf-8", "surrogateescape")
+    parts = text.split("\n")
+    if parts and parts[-1] == "":
+        parts.pop()
+    return parts[1:]
 
 
 def _new_cleaner():
@@ -1502,6 +1550,8 @@ def _features(path, flts, stage, out):
         feats["provider"] = "file" if path == "host-file" else "command"
     if any("\n" in f for f, _, _ in flat):
         feats["filter_contains_newline"] = True
+    if _LIMIT[0] is not None:
+        feats["content_limit_configured"] = True
     return feats
 
 
@@ -1509,19 +1559,22 @@ def _observe(fx, path, lines, cleaner, flts):
     """-> [(stage, the input lines this stage is judged against, output lines, note)]"""
     if path == "archive-load":
         p = _archive_provider(fx, lines)
-        return [("output", lines, p.content, None), ("stream-after-load", lines, list(p.stream()), None)]
+        src = _surviving(lines)
+        if len(lines) > TWICE_MAX_LINES:           # stream() after the load: contents of <= 3 lines only
+            return [("output", src, p.content, None)]
+        return [("output", src, p.content, None), ("stream-after-load", src, list(p.stream()), None)]
     if path == "cleaner":
         return [("output", lines, _obs_cleaner(fx, cleaner, lines), None)]
     if path == "apply":
         return [("output", lines, _obs_apply(fx, lines), None)]
     if path == "archive-load-twice":        # same registration, the file is loaded a second time
         _obs_archive(fx, lines)
-        return [("second", lines, _obs_archive(fx, lines), None)]
+        return [("second", _surviving(lines), _obs_archive(fx, lines), None)]
     if path == "cleaner-twice":
         _obs_cleaner(fx, cleaner, lines)
         return [("second", lines, _obs_cleaner(fx, cleaner, lines), None)]
     if path == "archive-stream":            # stream() of a provider whose content was never loaded
-        return [("output", lines, list(_archive_provider(fx, lines).stream()), None)]
+        return [("output", _surviving(lines), list(_archive_provider(fx, lines).stream()), None)]
     if path == "archive-glob":
         return _obs_archive_glob(fx, lines)
     return _obs_host(fx, path, lines, flts)
@@ -1580,8 +1633,58 @@ def check_content(case):
     _mkroot(fx)
     try:
         _register(fx, PATH_TRIPLE[case["path"]], case["filters"])
-        out, v = _judge_path(fx, case["path"], list(case["lines"]), case["filters"], _new_cleaner())
+        with _content_limit(case.get("max_content_size")):
+            out, v = _judge_path(fx, case["path"], list(case["lines"]), case["filters"], _new_cleaner())
         return [v] if v else []
+    finally:
+        _reset_tables(fx)
+        _rmroot(fx)
+
+
+# extra-huge files: the truncated read, reached by configuring MAX_CONTENT_SIZE to a few bytes
+SIGMA_H = ["a", "b", "\u00e9a", "c\u00e9", "-a", "c", ""]      # two lines with a 2-byte character (cut inside it)
+HUGE_SETS = [[["a", None, "point"]], [["a", 1, "impl"]], [["a", 2, "point"], ["b", 1, "parser"]],
+             [["b", None, "impl"], ["-a", 1, "point"]], [["\u00e9", 1, "point"]]]
+
+
+def explore_huge(unit, tier, res):
+    """Every content of <= 3 lines over SIGMA_H x EVERY limit from 0 to size+1 bytes (every cut position: inside a line,
+    on a line boundary, inside a multi-byte character; size-1 / size / size+1 around the `>` of the size test) through
+    archive-load (+ stream after load), archive-stream and the repeated load; on the host paths (the grep pre-filter
+    reads the whole file, the limit must not matter there) contents of <= 2 lines with limits size-1 and size+1."""
+    fx = _fx()
+    flts = HUGE_SETS[unit["set"]]
+    cleaner = _new_cleaner()
+    _mkroot(fx)
+    try:
+        plan = [(("archive-load", "archive-stream", "archive-load-twice"), 3, None)]
+        if unit.get("host"):
+            plan = [(("host-file", "host-cmd"), 2 if tier == "quick" else 3, "around")]
+        for paths, L, which in plan:
+            for path in paths:
+                _register(fx, PATH_TRIPLE[path], flts)
+                snap = _snapshot_tables(fx)
+                for t in enumx.strings(SIGMA_H, L):
+                    lines = list(t)
+                    n = len("".join(l + "\n" for l in lines).encode("utf-8"))
+                    limits = (range(0, n + 2) if which is None and path != "archive-load-twice"
+                              else [m for m in (n - 1, n + 1) if m >= 0])
+                    for m in limits:
+                        _restore_tables(fx, snap)
+                        with _content_limit(m):
+                            out, v = _judge_path(fx, path, lines, flts, cleaner)
+                        res.evals += 1
+                        if path.startswith("host"):
+                            res.stat("real_grep_cases")
+                        if out is not None:
+                            if 0 < m < n and 0 < len(out) < len(lines):
+                                res.nontrivial += 1
+                            res.outcomes.add("huge:%s:%s:%d" % (path, "cut" if m < n else "whole", min(len(out), 3)))
+                        if v:
+                            _report(res, v[0], {"part": "content", "path": path, "lines": lines, "filters": flts,
+                                                "max_content_size": m}, v[1], v[2], v[3])
+        res.samples.append({"part": "content", "path": "archive-load", "lines": ["c", "\u00e9a", "a"], "filters": flts,
+                            "max_content_size": 5})
     finally:
         _reset_tables(fx)
         _rmroot(fx)
@@ -1640,6 +1743,10 @@ def explore_content(unit, tier, res):
         si = unit["set"]
         flts = with_via(filter_sets(tier)[si], si)
         L = BOUNDS[tier]["content_max_lines"]
+        fs = filter_sets(tier)[si]
+        if (tier == "quick" and len(fs) == 2 and fs[0][1] is None and fs[1][1] is None
+                and (fs[0][0], fs[1][0]) not in (("a", "b"), ("a", "-a"), ("a", ".*"), ("a", "[a]"))):
+            L = 3      # quick: two non-overlapping filters without budgets add little on 4-line contents
         paths_for = lambda n: (IN_PROCESS + (TWICE if n <= TWICE_MAX_LINES else ())
                                + (SHORT + ("archive-glob",) if n <= SHORT_MAX_LINES else ()))
     cleaner = _new_cleaner()
@@ -1932,6 +2039,10 @@ def units(tier, seed):
     for si in range(len(host_filter_sets(tier))):
         for j in range(kh):
             us.append({"part": "host", "set": si, "shard": j, "of": kh})
+    for si in range(len(HUGE_SETS)):
+        us.append({"part": "huge", "set": si})
+    for si in (1, 2):
+        us.append({"part": "huge", "set": si, "host": True})
     km = 1 if tier == "quick" else 4
     for pth in sorted(HOST_MULTI):
         for si in range(len(HOST_MULTI_SETS)):
@@ -2013,6 +2124,8 @@ def run_unit(unit, tier):
                     res.violation(c, case, e, o, ft)
     elif part == "glue":
         explore_glue(res)
+    elif part == "huge":
+        explore_huge(unit, tier, res)
     elif part == "disabled":
         sets = [[], [["a", 1, "point"]], [["a", None, "impl"], ["b", 1, "parser"]]]
         for flts in sets:
